@@ -20,6 +20,7 @@ pub fn cfg() -> GenCfg {
         max_stmts: 4,
         self_calls: true,
         banked_permille: 200,
+        word_names: true,
         ..GenCfg::default()
     }
 }
